@@ -75,14 +75,7 @@ func run(t *rapid.T, deterministic bool) {
 	rec := &mach.Rec{}
 	rec.Op("cfg sess=%d boxes=%d det=%v", cfg.NSess, nBoxes, deterministic)
 
-	for _, s := range w.S {
-		box := w.PickBox(t)
-		if r := s.Select(box, false); !r.OK() {
-			t.Fatalf("select: %v", r)
-		}
-
-		rec.Op("%s select %s", s.Name, box)
-	}
+	w.SelectAll(t, rec, 0)
 
 	fail := func(s *mach.Sess, format string, a ...any) {
 		if lateLowerUID(s) && kf.Report(mach.KfLateLowerUID) {
@@ -143,7 +136,7 @@ func run(t *rapid.T, deterministic bool) {
 			w.Noop(s)
 
 			// (3) every removal has been announced by now, re-added messages are there once, under their new UID
-			diff, err := w.QuiescentDiff(s)
+			diff, err := w.QuiescentUIDDiff(s)
 			if err != nil {
 				t.Fatalf("harness: %v\nhistory:\n%s", err, w.Bed.Hist)
 			}
